@@ -142,6 +142,7 @@ fn main() {
 		("u32", "C07", "VERIF_BIN_U32_C07"),
 		("u16", "C05", "VERIF_BIN_U16_C05"),
 		("u16", "C06", "VERIF_BIN_U16_C06"),
+		("u16", "C09", "VERIF_BIN_U16_C09"),
 		("f32", "C02", "VERIF_BIN_F32_C02"),
 		("f32", "C03", "VERIF_BIN_F32_C03"),
 		("f32", "C04", "VERIF_BIN_F32_C04"),
